@@ -505,8 +505,31 @@ func runC20(w *core.WorkerCtx, idx int) *core.CaseResult {
 	}
 	fm.mu.Unlock()
 	byID := map[int][]probeEv{}
+	seenSent := map[int64]bool{}
 	for _, e := range evs {
 		byID[e.ID] = append(byID[e.ID], e)
+		seenSent[e.arrive.UnixNano()] = true
+	}
+	// the explorer's side of the same requests: an attempt that failed in the transport (it may never have reached
+	// the target: refused, reset or dropped connection on a loaded machine) is a failed probe all the same, and an
+	// attempt that is still in flight at the end means that no retry is due for that target yet
+	inFlightAtEnd := map[int]bool{}
+	hung := 0 // attempts without an answer at the end: each keeps one explorer worker busy
+	for _, a := range p.clientLog.snapshot() {
+		id, err := strconv.Atoi(strings.TrimPrefix(a.Path, "/t/"))
+		if err != nil || seenSent[a.SentNs] {
+			continue
+		}
+		if a.Done.IsZero() {
+			inFlightAtEnd[id] = true
+			hung++
+			res.AddStat("probes_still_in_flight_at_the_end", 1)
+			continue
+		}
+		if a.Err != "" {
+			byID[id] = append(byID[id], probeEv{ID: id, Arrive: a.Sent.Sub(t0).Milliseconds(), Depart: a.Done.Sub(t0).Milliseconds(), OK: false, arrive: a.Sent, depart: a.Done})
+			res.AddStat("probes_that_failed_before_reaching_the_target", 1)
+		}
 	}
 	res.Execs = 1
 	res.AddStat("targets", int64(len(c.Targets)))
@@ -633,7 +656,7 @@ func runC20(w *core.WorkerCtx, idx int) *core.CaseResult {
 					}
 				}
 				// a failed probe is retried (bounded progress: within interval + 10 s) while the target stays
-				if len(in) > 0 && success == nil {
+				if len(in) > 0 && success == nil && !inFlightAtEnd[id] && hung < c.Workers {
 					last := in[len(in)-1]
 					if !last.OK && pEnd.Sub(last.depart) > retryInterval+15*time.Second {
 						bad("C20/retry-missing", id, "probe that left at %d ms failed, the target stayed discovered for %d more ms, no retry arrived", last.Depart, pEnd.Sub(last.depart).Milliseconds())
